@@ -176,7 +176,7 @@ def _script(case: Dict[str, Any], res: CaseResult) -> None:
         alone: Dict[str, Any] = {}
         for ti, ops in enumerate(case["threads"]):
             for oi, op in enumerate(ops):
-                if op["op"] == "build" and op.get("raise_at") is None:
+                if op["op"] == "build" and op.get("raise_at") is None and not op.get("refused_in_sub"):
                     alone[f"{ti}.{oi}"] = dump(prog.build(op["prog"], mc=2).dag)
             if case.get("private"):
                 # the same reconfigurations applied in the same order to a DAG nobody interferes with
@@ -264,6 +264,10 @@ def _script(case: Dict[str, Any], res: CaseResult) -> None:
                         if not isinstance(r.get("exc"), UserBug):
                             res.viol("failing-build", f"a describing function that raises gave {r.get('exc', r.get('value'))!r} instead of its own exception" + tag)
                         continue
+                    if op.get("refused_in_sub"):
+                        if "exc" in r:
+                            res.cls("build-refused-inside-nested-dag")
+                        continue  # (whether tawazi refuses this description is not C16's business; what follows it is)
                     if "exc" in r:
                         res.viol("build-raised", f"building raised {type(r['exc']).__name__}: {str(r['exc'])[:200]}" + tag)
                         continue
@@ -286,6 +290,8 @@ def _script(case: Dict[str, Any], res: CaseResult) -> None:
         res.cls("script", f"threads-{len(workers)}")
         if any(op.get("raise_at") is not None for ops in case["threads"] for op in ops):
             res.cls("failing-build")
+        if any(op.get("op") == "build" and op["prog"]["body"] and op["prog"]["body"][0]["k"] == "sub" for ops in case["threads"] for op in ops):
+            res.cls("build-with-nested-dag")
         if during_pause:
             res.cls("op-during-foreign-description")
         res.note = {"ops_during_foreign_description": during_pause}
@@ -463,6 +469,17 @@ def cases(draw: Any, tier: str) -> Dict[str, Any]:
                     # the describing function raises (at or after the pause point): the lock / build state must be
                     # released so that every later operation of every thread behaves as usual
                     op_b["raise_at"] = draw(st.integers(pause if pause is not None else 0, len(P["body"]) - 1))
+                elif gen.chance(draw, 0.35):
+                    # the described DAG calls another DAG (its nodes are spliced in under a prefixed id)
+                    refused = gen.chance(draw, 0.3) and all(x["k"] == "call" for x in P["body"])
+                    if refused:
+                        # fault at a point: the description is refused INSIDE the expansion of the nested DAG (an
+                        # activation flag on a nested DAG one of whose nodes already has one: documented RuntimeError)
+                        P["body"][0]["active"] = ["c", True]
+                        op_b["refused_in_sub"] = True
+                    op_b["prog"] = {"name": f"O{nb}", "params": [], "fns": {}, "ret": ["x", ["v", "w"]],
+                                    "body": [{"k": "sub", "prog": P, "args": [], "active": ["c", True] if refused else None, "out": "w"}]}
+                    op_b["pause"] = 0 if pause is not None else None
                 ops.append(op_b)
         threads.append(ops)
     total = sum(len(o) + sum(1 for x in o if x["op"] == "build" and x.get("pause") is not None) for o in threads)
